@@ -8,7 +8,7 @@ import Amgcl.Model.SolverCommon
   mirrored literally: `nrmA` here, `nrm` in `SolverCommon`.  The common prologue exists in both flavours
   (`prologue` / `prologueA`).
 * **small coefficient arrays and lists of work vectors** (`std::vector<coef_type> s(M+1)`, `multi_array H(M+1, M)`,
-  `std::vector<shared_ptr<vector>> v`) are modelled as total maps `Nat → K`, `Nat → Nat → K`, `Nat → Vec K` with
+  `std::vector<shared_ptr<vector>> v`) are modelled as total maps (`FArr K`, `FArr2 K`, `FArr (Vec K)`) with
   point updates `setF` / `setF2`.  Every index the code uses lies inside the allocated range (for `M ≥ 1`, `L ≥ 1`,
   `s ≥ 1`, which the driver requires; range errors themselves are the business of ASan in the harness, C10), so the
   map restricted to the allocated range IS the array.  The maps are explicit work-space state passed in and out of
@@ -35,13 +35,34 @@ def prologueA (nsSearch : Bool) (ip : Vec K → Vec K → K) (sqrt : K → K) (e
 
 end ops
 
+/-- a fixed-size array modelled as a total map.  It is a STRUCTURE around the function (not a bare function type) so
+that the compiled driver evaluates every update once: a definition whose result type is a bare function is
+eta-expanded by the compiler and would be re-evaluated at every lookup. -/
+structure FArr (α : Type) where
+  get : Nat → α
+
+/-- a two-dimensional array (`multi_array<T,2>`) modelled as a total map -/
+structure FArr2 (α : Type) where
+  get : Nat → Nat → α
+
+instance {α : Type} : CoeFun (FArr α) (fun _ => Nat → α) := ⟨FArr.get⟩
+instance {α : Type} : CoeFun (FArr2 α) (fun _ => Nat → Nat → α) := ⟨FArr2.get⟩
+
+/-- the array all of whose cells hold `x` -/
+def FArr.const {α : Type} (x : α) : FArr α := ⟨fun _ => x⟩
+def FArr2.const {α : Type} (x : α) : FArr2 α := ⟨fun _ _ => x⟩
+
 /-- point update of an array modelled as a total map: `a[i] = x` -/
-@[inline] def setF {α : Type} (a : Nat → α) (i : Nat) (x : α) : Nat → α :=
-  fun k => if k = i then x else a k
+def setF {α : Type} (a : FArr α) (i : Nat) (x : α) : FArr α :=
+  ⟨fun k => if k = i then x else a.get k⟩
 
 /-- point update of a two-dimensional array modelled as a total map: `H(i, j) = x` -/
-@[inline] def setF2 {α : Type} (H : Nat → Nat → α) (i j : Nat) (x : α) : Nat → Nat → α :=
-  fun a b => if a = i ∧ b = j then x else H a b
+def setF2 {α : Type} (H : FArr2 α) (i j : Nat) (x : α) : FArr2 α :=
+  ⟨fun a b => if a = i ∧ b = j then x else H.get a b⟩
+
+/-- the coefficient/vector pairs `(c[i], *v[i])`, `i < n`, handed to `backend::lin_comb(n, c, v, …)` -/
+def combList {K : Type} (n : Nat) (c : Nat → K) (v : Nat → Vec K) : List (K × Vec K) :=
+  (List.range n).map (fun i => (c i, v i))
 
 /-- `do { body } while (cont)` : the body runs once, then `while (cont) body` with the given fuel -/
 def doWhile {σ : Type} (cont : σ → Bool) (body : σ → σ) (fuel : Nat) (s : σ) : σ :=
